@@ -25,7 +25,17 @@ def shared_forward_grammar(rng):
     # results names on what FOLLOWS the shared Forward: a failed alternative must not leave its names on the memoized result
     nm = lambda t, n: rng.choice([t, t, ("name", n, t), ("namestar", n, t)])
     t1, t2, t3 = nm(t1, "p"), nm(t2, "q"), nm(t3, rng.choice("pr"))
-    shape = rng.choice(["mf", "or", "opt", "star"])
+    shape = rng.choice(["mf", "or", "opt", "star", "three", "three"])
+    if shape == "three":
+        # three alternatives re-parse the Forward at one position: the first does the search, the second extends a memo-hit copy
+        # (names with one flag) and fails, the third must not see what the second left on the memo entry (names, list-all flags)
+        n = rng.choice(["p", "q"])
+        tok = lambda: rng.choice([("word", "ab"), ("lit", "b"), ("lit", ","), ("word", "12")])
+        k1, k2 = rng.sample(["name", "namestar"], 2)
+        u1, u2, v1, v2 = tok(), tok(), None, None
+        second = ("and", F, (k1, n, u1), (k1, n, u2), ("lit", "?"))
+        third = ("and", F, (k2, n, u1), (k2, n, u2)) if rng.random() < 0.7 else ("and", F, (k2, n, u1))
+        return ("mf", ("and", F, ("lit", "!")), second, third)
     if shape == "opt":
         return ("and", ("opt", ("and", F, t1, t2)), F, t3)
     if shape == "star":
